@@ -110,4 +110,72 @@ def sink_put_chunk (s : Snk) (blk : List (BitVec 8)) (n : BitVec 64) : Res (BitV
     | (none, s') => .val (n, s')
     | (some e, s') => .val (e.signExtend 64, s')
 
+/-! ### endpoint drivers (the callbacks behind a `Source` / `Sink`)
+
+A driver is a script: how its next calls behave - move up to `k` octets, or answer a code (zero or negative) and
+move nothing.  When the script is used up it moves whatever it is asked to.  A source driver owns the octets it will
+still deliver and answers `-ENODATA` once they are gone; an octet-style call moves one octet at most. -/
+
+inductive DStep where
+  | xfer (k : Nat)
+  | ret (rc : BitVec 32)
+  deriving Repr, DecidableEq
+
+structure SrcDrv where
+  stream : List (BitVec 8)
+  script : List DStep
+  calls : Nat := 0
+  deriving Repr, DecidableEq
+
+structure SnkDrv where
+  got : List (BitVec 8) := []
+  script : List DStep
+  calls : Nat := 0
+  deriving Repr, DecidableEq
+
+/-- a source driver asked for up to `m` octets, to be put at the front of `blk` -/
+def SrcDrv.deliver (d1 : SrcDrv) (blk : List (BitVec 8)) (m : Nat) : Res (Nat × SrcDrv × List (BitVec 8)) :=
+  let moved := min m d1.stream.length
+  if blk.length < moved then .oob
+  else .val (moved, { d1 with stream := d1.stream.drop moved }, d1.stream.take moved ++ blk.drop moved)
+
+/-- `ssize_t (*ChunkSource)(void *driver, void *buf, size_t n)` -/
+def drvSrcChunk (d : SrcDrv) (blk : List (BitVec 8)) (n : BitVec 64) : Res (BitVec 64 × SrcDrv × List (BitVec 8)) :=
+  let d1 := { d with script := d.script.tail, calls := d.calls + 1 }
+  match d.script.head? with
+  | some (.ret rc) => .val (rc.signExtend 64, d1, blk)
+  | step =>
+    let m := match step with | some (.xfer k) => min k n.toNat | _ => n.toNat
+    if d.stream.isEmpty then .val ((NEG_ENODATA).signExtend 64, d1, blk)
+    else Res.bind (d1.deliver blk m) fun (k, d2, blk') => .val (BitVec.ofNat 64 k, d2, blk')
+
+/-- `int (*ByteSource)(void *driver, void *data)` -/
+def drvSrcOctet (d : SrcDrv) (cell : List (BitVec 8)) : Res (BitVec 32 × SrcDrv × List (BitVec 8)) :=
+  let d1 := { d with script := d.script.tail, calls := d.calls + 1 }
+  match d.script.head? with
+  | some (.ret rc) => .val (rc, d1, cell)
+  | step =>
+    let m := match step with | some (.xfer k) => min k 1 | _ => 1
+    if d.stream.isEmpty then .val (NEG_ENODATA, d1, cell)
+    else Res.bind (d1.deliver cell m) fun (k, d2, cell') => .val (BitVec.ofNat 32 k, d2, cell')
+
+/-- `ssize_t (*ChunkSink)(void *driver, const void *buf, size_t n)` -/
+def drvSnkChunk (d : SnkDrv) (blk : List (BitVec 8)) (n : BitVec 64) : Res (BitVec 64 × SnkDrv) :=
+  let d1 := { d with script := d.script.tail, calls := d.calls + 1 }
+  if blk.length < n.toNat then .oob
+  else
+    let data := blk.take n.toNat
+    match d.script.head? with
+    | some (.ret rc) => .val (rc.signExtend 64, d1)
+    | some (.xfer k) => .val (BitVec.ofNat 64 (min k data.length), { d1 with got := d.got ++ data.take k })
+    | none => .val (BitVec.ofNat 64 data.length, { d1 with got := d.got ++ data })
+
+/-- `int (*ByteSink)(void *driver, unsigned char data)` -/
+def drvSnkOctet (d : SnkDrv) (o : BitVec 8) : Res (BitVec 32 × SnkDrv) :=
+  let d1 := { d with script := d.script.tail, calls := d.calls + 1 }
+  match d.script.head? with
+  | some (.ret rc) => .val (rc, d1)
+  | some (.xfer k) => .val (BitVec.ofNat 32 (min k 1), { d1 with got := d.got ++ [o].take k })
+  | none => .val (1#32, { d1 with got := d.got ++ [o] })
+
 end Ufw.Tie.CPre
